@@ -220,7 +220,8 @@ extern void *mpt_identifier_set(MPT_STRUCT(identifier) *id, const char *name, in
 		int post = id->_max - len;
 		/* zero pointer indicates non-printable (cleared) data */
 		if (name) {
-			dest = memcpy(id->_val, name, len);
+			/* name may be part of current local data */
+			dest = memmove(id->_val, name, len);
 		} else {
 			dest = memset(id->_val, 0, len);
 		}
